@@ -29,11 +29,11 @@ def main(argv):
     t0 = time.time()
     quick = tier == "quick"
     exe, _ = enumcheck.reflect_harness("h_fault", "sched-asan")
-    orders = (-1, 0, 5) if quick else (-1, 0, 1, 2, 3, 4, 5)
+    orders = (-1, 0, 1, 2, 3, 4, 5)
     jobs = []
-    for s in ((0,) if quick else (0, 1)):
-        for lv in (0, 1, 6, 9):
-            for c in (32, 100, 0x20000):
+    for s in (0, 1):
+        for lv in ((0, 1, 6, 9) if (s == 0 or not quick) else (0, 6)):
+            for c in ((32, 100, 0x20000) if (s == 0 or not quick) else (32, 0x20000)):
                 for ih in (0, 1):
                     for o in orders:
                         for sh in range(2):
